@@ -284,7 +284,12 @@ theorem tls13_connection_exact (H : Crypto.Prims) (P : Prims) (L : SealLaws P) (
 namespace Ex
 open TLX.Props.C01Pipeline.Ex2 TLX.Props.C01.Ex
 
-theorem gen_eq (x : Except PyErr (Option KeySchedule.Installed)) (k : KeySchedule.Keys6)
+theorem some_getD {α : Type} (o : Option α) (d : α) (h : o.isSome = true) : o = some (o.getD d) := by
+  cases o with
+  | none => cases h
+  | some a => rfl
+
+theorem gen_eq {ε : Type} (x : Except ε (Option KeySchedule.Installed)) (k : KeySchedule.Keys6)
     (h : (match x with | .ok (some (.legacy k')) => decide (k' = k) | _ => false) = true) :
     x = .ok (some (.legacy k)) := by
   cases x with
@@ -374,6 +379,57 @@ theorem delivered0 : DeliveredInOrder infoCap connCap
         = segsOf (isnOf true) 0 (chunksOf true) := by decide +kernel
     unfold InOrder
     rw [e2]; exact Delivers.cut _ hcut
+
+theorem causal0 : Causal12 (connRecs infoCap connCap) :=
+  ⟨(connRecs infoCap connCap).take 1, (connRecs infoCap connCap).drop 1, (List.take_append_drop 1 _).symm,
+    by decide +kernel, by decide +kernel,
+    ((connRecs infoCap connCap).drop 1).headD (⟨[], []⟩, false), ((connRecs infoCap connCap).drop 1).tail,
+    by decide +kernel, by decide +kernel⟩
+
+/-- every hypothesis of `tls12_connection_exact` holds for this connection (toy primitives, toy hashes with the real
+    digest sizes, the regenerated suite table, the key-log line) — and so does its conclusion -/
+theorem tls12_instance :
+    ∃ frames, Pipeline.connOut hashes Cipher.Toy.prims infoCap connCap kl0
+        = some (frames.map (Pipeline.addressed connCap.opts connCap)) ∧
+      Spec.reassemble frames = some (hi, k16) ∧ TimesFromCarriers infoCap connCap frames := by
+  have hres : CipherSuite.resolve (Bytes.beNat t0.sh.cipherSuite) = some ps0 := by decide +kernel
+  have hargs : Pipeline.suiteArgs ps0 = some a0 := some_getD _ _ (by decide +kernel)
+  have hfound : (Keylog.findSessionSecrets kl0 (Pipeline.natsOfBytes t0.ch.random)).filter
+      (fun k => k.label == Keylog.s_CLIENT_RANDOM || k.label == Keylog.s_RSA) = f0 :: [] := by decide +kernel
+  have hsec : Pipeline.secretsOf false (f0 :: []) = some secrets0 := by decide +kernel
+  have hgen : KeySchedule.generateKeys hashes (Pipeline.ksVersion .tls12) a0.ks secrets0 t0.ch.random t0.sh.random
+      = .ok (some (.legacy k0)) :=
+    gen_eq (KeySchedule.generateKeys hashes .tls12 a0.ks secrets0 cr0 sr0) k0 (by decide +kernel)
+  have hcls : classOf a0.bulk (Pipeline.rlVersion .tls12)
+      (Session.extGet ((t0.sh.extensions.getD []).map extPair) [0x00, 0x16]).isSome a0.tagLen = some cls0 := by
+    decide +kernel
+  have hmac : 0 < (KeySchedule.macSuite hashes a0.ks.mac).outLen := by decide +kernel
+  have hck : KeyMatOk cls0 k0.clientKey k0.clientIv := by decide +kernel
+  have hsk : KeyMatOk cls0 k0.serverKey k0.serverIv := by decide +kernel
+  have hokc : ∀ e ∈ t0.cEvs, EvOk1 cls0 (KeySchedule.macSuite hashes a0.ks.mac).outLen e := by decide +kernel
+  have hoks : ∀ e ∈ t0.sEvs, EvOk1 cls0 (KeySchedule.macSuite hashes a0.ks.mac).outLen e := by decide +kernel
+  have hwr : ∀ d, ∀ r ∈ t0.records Cipher.Toy.prims Cipher.Toy.laws cls0 (legacySnd k0) d, WholeRecord r := by
+    intro d; cases d <;> decide +kernel
+  have hlen : t0.cEvs.length + t0.sEvs.length ≤ seqLimit := by decide +kernel
+  have hsc : Script12 t0.cEvs := ⟨[[16, 0, 0, 2, 9, 9]], _, rfl, by decide, by
+    intro e he
+    simp only [List.mem_cons, List.mem_nil_iff, or_false] at he
+    rcases he with rfl | rfl | rfl <;> exact ⟨_, _, _, rfl, by decide⟩⟩
+  have hss : Script12 t0.sEvs := ⟨[[11, 0, 0, 3, 1, 2, 3, 14, 0, 0, 0]], _, rfl, by decide, by
+    intro e he
+    simp only [List.mem_cons, List.mem_nil_iff, or_false] at he
+    rcases he with rfl | rfl <;> exact ⟨_, _, _, rfl, by decide⟩⟩
+  have h := tls12_connection_exact hashes Cipher.Toy.prims Cipher.Toy.laws kl0 infoCap connCap rfl t0
+    (by decide) (by decide) rfl rfl rfl rfl .tls12 (by decide) (by unfold Negotiated; decide)
+    ps0 hres a0 hargs f0 [] hfound secrets0 hsec k0 hgen cls0 hcls hmac hck hsk hsc hss hokc hoks hwr hlen
+    delivered0 causal0
+  have e : (Spec.TlsConnection.plainOf t0.cEvs, Spec.TlsConnection.plainOf t0.sEvs) = (hi, k16) := by decide
+  rw [e] at h
+  exact h
+
+-- … consistent with evaluating the model on the same packets
+example : view (Pipeline.connOut hashes Cipher.Toy.prims infoCap connCap kl0)
+    = some [(1004, hi), (1006, k16.take 8), (1008, k16.drop 8)] := by decide +kernel
 
 end Ex
 
